@@ -102,7 +102,7 @@ def splitOnTok (sep : String) (toks : List String) : List (List String) :=
   acc ++ [cur]
 
 def errName : Err → String
-  | .nosuitable => "nosuitable" | .arglen => "arglen" | .whenerr => "whenerr" | .inerr => "inerr"
+  | .nosuitable => "nosuitable" | .arglen => "arglen" | .retlen => "retlen" | .whenerr => "whenerr" | .inerr => "inerr"
   | .reterr => "reterr" | .reflect => "reflect" | .runtime => "runtime" | .evalerr => "evalerr"
   | .unmodelled => "unmodelled"
 
